@@ -371,7 +371,7 @@ def progSteps (ths : List Thread) : Nat := (ths.map fun th => th.prog.length).su
 def runSched (nk : Nat) (progs : List (List Op)) (sched : List Nat) : Sys :=
   let y0 : Sys := { g := G.init, threads := progs.map fun p => { prog := p } }
   let y1 := sched.foldl (tstep nk) y0
-  drain nk (4 * progSteps y0.threads + 4) y1
+  drain nk (6 * progSteps y0.threads + 8) y1
 
 /-- the canonical answer line of a case -/
 def runCase (nk : Nat) (progs : List (List Op)) (sched : List Nat) : String :=
